@@ -30,6 +30,8 @@ pub struct SubframeInfo {
 pub struct FrameInfo {
     pub offset: usize, // from start of file
     pub len: usize,
+    /// header length including the CRC-8 byte
+    pub hdr_len: usize,
     pub variable: bool,
     pub number: u64,
     pub bs: u32,
@@ -133,11 +135,15 @@ fn be(d: &[u8]) -> u64 {
 
 pub struct Cfg {
     pub strict: bool,
+    /// with `strict`: also require STREAMINFO's informational fields (min/max frame size, MD5) to be true
+    pub check_info: bool,
 }
 
 impl Cfg {
-    pub const STRICT: Cfg = Cfg { strict: true };
-    pub const LENIENT: Cfg = Cfg { strict: false };
+    pub const STRICT: Cfg = Cfg { strict: true, check_info: true };
+    /// strict framing rules, but STREAMINFO min/max frame size and MD5 are not compared
+    pub const STRICT_FRAMING: Cfg = Cfg { strict: true, check_info: false };
+    pub const LENIENT: Cfg = Cfg { strict: false, check_info: false };
 }
 
 /// Full decode: any error is fatal.
@@ -286,13 +292,13 @@ pub fn decode_partial(d: &[u8], cfg: &Cfg) -> R<(Decoded, Option<String>)> {
                 }
             }
         }
-        if info.min_fs != 0 {
+        if info.min_fs != 0 && cfg.check_info {
             let m = frames.iter().map(|f| f.len).min().unwrap_or(0);
             if m as u32 != info.min_fs {
                 return Err(format!("STREAMINFO min frame size {} != true {}", info.min_fs, m));
             }
         }
-        if info.max_fs != 0 {
+        if info.max_fs != 0 && cfg.check_info {
             let m = frames.iter().map(|f| f.len).max().unwrap_or(0);
             if m as u32 != info.max_fs {
                 return Err(format!("STREAMINFO max frame size {} != true {}", info.max_fs, m));
@@ -304,7 +310,7 @@ pub fn decode_partial(d: &[u8], cfg: &Cfg) -> R<(Decoded, Option<String>)> {
     } else {
         Some(pcm_md5(&pcm, info.bps) == info.md5)
     };
-    if cfg.strict && md5_ok == Some(false) {
+    if cfg.strict && cfg.check_info && md5_ok == Some(false) {
         return Err("MD5 mismatch".into());
     }
     Ok((Decoded { info, blocks, first_frame, frames, pcm, md5_ok }, None))
@@ -524,6 +530,7 @@ pub fn decode_frame(d: &[u8], off: usize, info: Option<&StreamInfo>, cfg: &Cfg) 
         FrameInfo {
             offset: off,
             len,
+            hdr_len: hdr_end + 1 - off,
             variable,
             number: num,
             bs,
